@@ -117,6 +117,7 @@ _PIPE_ASSUME = ['commands are deterministic functions of the files they read at 
                 'graph shapes: the scenario catalogue in harness/scenarios.h (shape is concrete manifest text parsed by the real ManifestParser); histories, schedules, options and faults are symbolic within the stated bounds',
                 'SubprocessSet, real signals, /bin/sh and the terminal are outside the encoding (CommandRunner, DiskInterface and Status are the cut points)']
 def _hist_jobs(check, quick_h, thorough_h, scenarios, extra_defs=(), fail=False, reach=('built', 'incremental-build')):
+    reach = [x for x in reach]
     jobs = []
     for i in scenarios:
         jobs.append(dict(name='%s%s' % (SCENARIOS[i], '_fail' if fail else ''), harness='pipeline.cc', units=PIPELINE, defines=['SCENARIO=%d' % i, check] + list(extra_defs) + (['HISTORY_FAIL'] if fail else []),
@@ -208,3 +209,19 @@ CHECKS['C18'] = dict(
     assumptions=['one graph shape; at most one built file missing; one target or rule argument', 'generator outputs are exempt only from a plain clean without -g (rule/target cleaning is explicit)'],
     jobs=[dict(name='clean', harness='c18_clean.cc', units=PIPELINE, reach=['clean-all', 'clean-target', 'clean-rule', 'clean-dead', 'dry-run'],
                bounds='mode in {all, target, rule, cleandead} x argument menus x -g x -n x which built file is missing (14)')])
+
+SCENARIOS.append('discovered_generated_no_path')
+CHECKS['C10'] = dict(
+    title='discovered dependencies count exactly like declared implicit inputs',
+    level_text='Symbolic histories over the whole real pipeline on shapes whose commands report extra dependencies through a plain depfile, deps=gcc or deps=msvc, pointing at sources or at generated files (with and without a manifest path to the generator). The reference gives discovered dependencies the semantics of declared implicit inputs: a monitor at CommandRunner::StartCommand asserts every generated file the command reads is already up to date, after a successful build the consumer must equal the from-scratch content, and a vanished discovered header must lead to a rebuild, never to the missing-source error.',
+    level_note='Trusted base as C01. The comparison is against the declared-implicit-input semantics computed by the harness reference, not against a second run of a rewritten manifest. Bounds: catalogue shapes, history length 2.',
+    assumptions=_PIPE_ASSUME,
+    jobs=_hist_jobs('CHECK_C10', 2, 3, [1, 3, 4, 8], reach=('built', 'incremental-build', 'header-vanished')) +
+         _hist_jobs('CHECK_C10', 1, 2, [14], extra_defs=['PREBUILD_SEQ'], reach=('built',)))
+CHECKS['C11'] = dict(
+    title='dyndep information behaves as if it had been written in the manifest',
+    level_text='Symbolic histories over the whole real pipeline on graphs whose dyndep file (produced during the build or already present, by a clean or dirty statement) adds an implicit output and an implicit input that is itself generated: the reference is the manifest with that information inlined, so started inputs must be up to date at command start and the final state must equal the from-scratch build. A second job feeds ill-formed dyndep files (truncated at every byte, missing or duplicated statement, output claimed by another statement, cycle-closing input, statement without binding, unknown output, missing version) and asserts the build fails with a non-empty error instead of silently dropping information.',
+    level_note='Trusted base as C01; the list of complete prefixes of the truncated file is computed by hand in the harness. Bounds: the dyndep shapes of the catalogue, history length 2, one dyndep file.',
+    assumptions=_PIPE_ASSUME,
+    jobs=_hist_jobs('CHECK_C11', 2, 3, [7], reach=('built', 'incremental-build')) +
+         _mode_jobs('MODE_DYNDEP_BAD', [7], suffix='_bad', reach=('truncated', 'rejected', 'accepted'), bounds='dyndep text truncated at every byte or one of 7 ill-formed variants; dyndep file produced during the build or already present; -j in {1,2}'))
